@@ -218,6 +218,7 @@ class World:
             ctx, before = self.stack.pop()
             exc = (None, None, None)
             where = "normal"
+            chain_model = chain_flags = None
             if op == "exit_exc":
                 self.exc_exits += 1
                 kind = step["exc"]
@@ -227,11 +228,15 @@ class World:
                         raise EXC[kind]("injected in the with body")
                     n = step.get("n", 2)
                     m = chain(n, step["where"] % (n + 1))
+                    bad = step.get("bad_batch")
                     for mod in m.modules():
-                        if isinstance(mod, Faulty):
+                        if isinstance(mod, Faulty) and not bad:
                             mod.armed = kind
+                    chain_model, chain_flags = m, model_state(m)[1]
                     with torch.no_grad():
-                        m(torch.ones(2, 6))
+                        # (bad batch: the fault is raised by a QUANTIZED module in the middle of its own forward -- a calibration batch
+                        # with the wrong number of features)
+                        m(torch.ones(2, 5 if bad else 6))
                     raise EXC[kind]("fault position not reached")
                 except BaseException as e:  # noqa: BLE001
                     exc = (type(e), e, e.__traceback__)
@@ -243,6 +248,11 @@ class World:
                 cls = "normal" if op == "exit" else ("Exception" if issubclass(EXC[step["exc"]], Exception) else "BaseException")
                 f.append((f"exit/{cls}/global-state-not-restored", f"after leaving Calibration ({where}) : {snap_diff(before, now)}"))
                 force_restore(before)
+            if chain_model is not None and model_state(chain_model)[1] != chain_flags:
+                # ... nor may the modules that were running when the exception came through keep anything but their calibrated scales
+                fl = model_state(chain_model)[1]
+                d = [f"{k_}: {chain_flags[k_]} -> {fl.get(k_)}" for k_ in chain_flags if fl.get(k_) != chain_flags[k_]][:2]
+                f.append(("exit/exception/module-flags-changed", f"a model whose forward raised inside the context ({where}{', wrong batch shape' if step.get('bad_batch') else ''}) is left with other qtypes / flags: {d}"))
         elif op == "forward":
             prep = (step.get("seed", 0) // 3) % 4
             mkey = (step["model"], prep)
@@ -465,9 +475,9 @@ def make_machine(hook):
             self.do({"op": "exit"})
 
         @precondition(lambda self: len(self.w.stack) > 0)
-        @rule(exc=st.sampled_from(sorted(EXC)), where=st.integers(-1, 3), n=st.integers(1, 3))
-        def exit_by_exception(self, exc, where, n):
-            self.do({"op": "exit_exc", "exc": exc, "where": where, "n": n})
+        @rule(exc=st.sampled_from(sorted(EXC)), where=st.integers(-1, 3), n=st.integers(1, 3), bad=st.booleans())
+        def exit_by_exception(self, exc, where, n, bad):
+            self.do({"op": "exit_exc", "exc": exc, "where": where, "n": n, "bad_batch": bad and where >= 0})
 
         @rule(model=st.sampled_from(["calibrated", "frozen", "unfrozen", "frozen-half"]), seed=st.integers(0, 50))
         def forward(self, model, seed):
@@ -510,7 +520,7 @@ def run_faults(ctx):
                     for where in [-1] + list(range(n + 1)):
                         for victim in ("calibrated", "frozen", "unfrozen"):
                             steps = [{"op": "enter", "m": 0.5, "streamline": streamline, "same": bool(k and (n + where) % 2)} for k in range(depth)]
-                            steps.append({"op": "exit_exc", "exc": exc, "where": where, "n": n})
+                            steps.append({"op": "exit_exc", "exc": exc, "where": where, "n": n, "bad_batch": where >= 0 and victim == "unfrozen"})
                             steps += [{"op": "exit"}] * (depth - 1)
                             steps += [{"op": "forward", "model": victim, "seed": n + where + 1}, {"op": "new_module", "seed": where + 1}]
                             if victim == "frozen":
